@@ -489,9 +489,14 @@ fn transports(run: &mut Run, quick: bool) {
     let _ = admin.disconnect(&node);
     let tcp = crate::tcp::TcpServer::start(node.dbs.clone());
     let http = crate::http::HttpServer::start(node.dbs.clone());
+    let ws = crate::ws::WsServer::start(node.dbs.clone());
+    let mut ws_probe = ws.connect().ok();
+    if let Some(p) = ws_probe.as_mut() {
+        p.cmd("use-db t tok");
+    }
     let mut lines: Vec<Vec<u8>> = core_alphabet().into_iter().filter(|l| !l.starts_with("join") && !l.starts_with("debug force-election") && !l.contains("election")).map(|l| l.into_bytes()).collect();
     if quick {
-        lines = lines.into_iter().step_by(6).collect();
+        lines = lines.into_iter().step_by(10).collect();
     }
     lines.push(vec![0xff, 0xfe, b' ', b'k']);
     lines.push(b"set k \xff\xfe".to_vec());
@@ -523,6 +528,38 @@ fn transports(run: &mut Run, quick: bool) {
                 let body = if kind == Kind::Admin { format!("auth {} {};use-db t tok;{}", USER, PWD, text) } else { text };
                 let _ = http.post(&body);
             }
+            // WebSocket: one connection per line; a text frame when the line is UTF-8, a binary frame otherwise
+            let shown = String::from_utf8_lossy(line).chars().take(80).collect::<String>();
+            match ws.connect() {
+                Ok(mut c) => {
+                    if kind == Kind::Admin {
+                        c.cmd(&format!("auth {} {};use-db t tok", USER, PWD));
+                    }
+                    if std::str::from_utf8(line).is_ok() && n % 2 == 0 {
+                        c.send_text(line);
+                    } else {
+                        c.send_binary(line);
+                    }
+                    let _ = c.read_replies(1, 40);
+                    let _ = c.close_and_wait();
+                }
+                Err(e) => {
+                    run.violate(crate::report::Violation { clause: "later-client-fails".into(), shape: format!("[websocket {:?}] connect", kind), detail: format!("before `{}`: a WebSocket client cannot connect any more: {}", shown, e), replay: serde_json::json!({"engine":"transport","line":shown}) });
+                    break;
+                }
+            }
+            let ws_ok = match ws_probe.as_mut() {
+                Some(p) => {
+                    let got = p.cmd(&format!("set wsprobe w{};get wsprobe;remove wsprobe", n));
+                    got.iter().any(|l| l.trim() == format!("value w{}", n))
+                }
+                None => false,
+            };
+            if ws.service_dead() || !ws_ok {
+                let log = crate::world::PANIC_LOG.lock().unwrap().last().cloned().unwrap_or_default();
+                run.violate(crate::report::Violation { clause: "service-loop-died".into(), shape: format!("[websocket {:?}] {} @ {}", kind, if std::str::from_utf8(line).is_ok() { shown.split(' ').next().unwrap_or("").to_string() } else { "<non-UTF-8 bytes>".to_string() }, log.rsplit(" @ ").next().unwrap_or("").replace("/repo/", "")), detail: format!("after `{}` in a WebSocket frame the WebSocket service no longer serves its other client (event loop ended: {}): {}", shown, ws.service_dead(), log), replay: serde_json::json!({"engine":"transport","transport":"websocket","line":shown}) });
+                break;
+            }
             // a second client is served, correctly
             probe_n += 1;
             let got = if probe_n % 25 == 1 {
@@ -540,7 +577,6 @@ fn transports(run: &mut Run, quick: bool) {
                 probe.cmd("remove probe");
                 got
             };
-            let shown = String::from_utf8_lossy(line).chars().take(80).collect::<String>();
             if !got.iter().any(|l| l.trim() == format!("value p{}", probe_n)) {
                 run.violate(crate::report::Violation { clause: "later-client-fails".into(), shape: format!("[transport {:?}] {}", kind, shown.split(' ').next().unwrap_or("")), detail: format!("after `{}` over TCP/HTTP a second TCP client got {:?}", shown, got), replay: serde_json::json!({"engine":"transport","line":shown}) });
                 break;
